@@ -28,23 +28,57 @@ EXPLANATION = (
 UNDECIDED = "state equality after the round trip for all trajectories (fact / fluent fidelity beyond the clauses above)"
 
 
+def _is_head_like(f: FuncInfo, e: ast.AST) -> bool:
+    """X[0] or a local alias of such a subscript"""
+    if L.subscript0_of(e) is not None:
+        return True
+    if isinstance(e, ast.Name):
+        for n in ast.walk(f.node):
+            if isinstance(n, (ast.Assign, ast.AnnAssign)) and n.value is not None and L.subscript0_of(n.value) is not None:
+                tgts = n.targets if isinstance(n, ast.Assign) else [n.target]
+                if any(isinstance(t, ast.Name) and t.id == e.id for t in tgts):
+                    return True
+    return False
+
+
+def _keyword_tests(repo: Repo, f: FuncInfo):
+    """[(compare node, keyword, positive?)] for tests of a list head against a keyword constant (literal or module constant)"""
+    out = []
+    for n in ast.walk(f.node):
+        if isinstance(n, ast.Compare) and len(n.ops) == 1 and isinstance(n.ops[0], (ast.Eq, ast.NotEq)):
+            for a_, b_ in ((n.left, n.comparators[0]), (n.comparators[0], n.left)):
+                k = None
+                if isinstance(b_, ast.Constant) and isinstance(b_.value, str):
+                    k = b_.value
+                elif isinstance(b_, ast.Name):
+                    ok, v = repo.const_value(f.mod.name, b_.id)
+                    k = v if ok and isinstance(v, str) else None
+                if k is not None and _is_head_like(f, a_):
+                    out.append((n, k, isinstance(n.ops[0], ast.Eq)))
+                    break
+    return out
+
+
 def rule_keywords(repo: Repo) -> RuleResult:
     r = RuleResult("C10.keywords", "keywords written by the trajectory writers = heads dispatched on by the trajectory reader",
                    "what is exported can be read back")
     writers = ["State.serialize", "TrajectoryExporter.export", "MultiAgentTrajectoryExporter.export"]
     written: Set[str] = set()
     for w in writers:
-        f = repo.func(w)
-        kw = {k for k in T.keywords(T.function_literals(f)) if k.startswith(":") or k.endswith(":")}
+        f = L.fn(repo, w)
+        lits = list(T.function_literals(f))
+        # literals kept in module constants
+        for n in ast.walk(f.node):
+            if isinstance(n, ast.Name) and isinstance(n.ctx, ast.Load):
+                ok, v = repo.const_value(f.mod.name, n.id)
+                if ok and isinstance(v, str):
+                    lits.append(v)
+        kw = {k for k in T.keywords(lits) if k.startswith(":") or k.endswith(":")}
         r.site(f.qn)
         written |= kw
         r.ok({"writer": f.qn, "keywords": sorted(kw)})
-    f = repo.func("TrajectoryParser.parse_trajectory")
-    read: Set[str] = set()
-    for n in ast.walk(f.node):
-        if isinstance(n, ast.Compare) and len(n.ops) == 1 and isinstance(n.comparators[0], ast.Constant) and isinstance(n.comparators[0].value, str):
-            if L.subscript0_of(n.left) is not None:
-                read.add(n.comparators[0].value)
+    f = L.fn(repo, "TrajectoryParser.parse_trajectory")
+    read: Set[str] = {k for _n, k, _pos in _keyword_tests(repo, f)}
     r.site(f.qn)
     if written == read and written:
         r.ok({"written": sorted(written), "read": sorted(read)})
@@ -54,37 +88,48 @@ def rule_keywords(repo: Repo) -> RuleResult:
     return r
 
 
-def _fluent_obligations(repo: Repo, f: FuncInfo) -> List[Dict[str, bool]]:
-    """per return of a parse_grounded_numeric_fluent: which obligations are discharged on the way"""
+def _fluent_obligations(repo: Repo, f: FuncInfo) -> List[Dict[str, object]]:
+    """for the case 'problem objects known' and 'unknown': which obligations every return discharges"""
     g = C.cfg_of(f.node)
-    dom = C.dominators(g)
     p = L.prov(repo, f)
-    arity = c05._raising_if_nodes(g, c05._is_arity_test)
-    typechk = c05._subtype_check_nodes(repo, f, g)
-    out = []
+    arity = set(c05._raising_if_nodes(g, lambda t: c05._is_arity_test(t, p)))
+    typechk = set(c05._subtype_check_nodes(repo, f, g))
     init = repo.find_method("PDDLFunction", "__init__")
-    for n in g.nodes():
-        if g.kind[n] != "return":
+
+    def matcher(e):
+        if isinstance(e, ast.Compare) and len(e.ops) == 1 and isinstance(e.ops[0], (ast.Is, ast.IsNot, ast.Eq, ast.NotEq)) and \
+                isinstance(e.comparators[0], ast.Constant) and e.comparators[0].value is None:
+            try:
+                tr = p.trace(e.left)
+            except KeyError:
+                return None
+            if tr and all(x == ("self", "attr:problem") for x in tr):
+                return "noproblem" if isinstance(e.ops[0], (ast.Is, ast.Eq)) else "!noproblem"
+        return None
+
+    G = L.Guards(f, matcher)
+    cases = [True, False] if "noproblem" in G.atoms_seen else [True]
+    out = []
+    rets = [n for n in g.nodes() if g.kind[n] == "return"]
+    for known in cases:
+        val = {"noproblem": not known} if "noproblem" in G.atoms_seen else {}
+        seen = G.reach(val)
+        live = [n for n in rets if n in seen]
+        if not live:
             continue
-        ret = g.stmt[n]
-        ob = {"arity": bool(dom[n] & set(arity)), "types": bool(dom[n] & set(typechk)), "repeats": False, "line": ret.lineno}
-        v = ret.value
-        ctor = None
-        if isinstance(v, ast.Call) and callee_name(v) == "PDDLFunction":
-            ctor = v
-        elif isinstance(v, ast.Name):
-            for x in ast.walk(f.node):
-                if isinstance(x, ast.Assign) and isinstance(x.value, ast.Call) and callee_name(x.value) == "PDDLFunction" and \
-                        any(isinstance(t, ast.Name) and t.id == v.id for t in x.targets):
-                    ctor = x.value
-        if ctor is not None:
-            rv = L.arg_of(ctor, init, "repeating_variables")
-            if rv is not None:
-                tr = p.trace(rv)
-                ob["repeats"] = any(any(s.startswith("arg0:Counter") for s in x) for x in tr)
-        # does this return know the objects? (problem is None branch has no type information)
-        ob["objects_known"] = not any(isinstance(g.stmt[d], ast.If) and "problem is None" in ast.unparse(g.stmt[d].test) and
-                                      any(ret is s or ret in list(ast.walk(s)) for s in g.stmt[d].body) for d in dom[n])
+        ob = {"objects_known": known, "line": g.stmt[live[0]].lineno}
+        ob["arity"] = not any(n in G.reach(val, avoid=arity) for n in live) and bool(arity)
+        ob["types"] = not any(n in G.reach(val, avoid=typechk) for n in live) and bool(typechk)
+        under = G.under(val, seen)
+        rep = True
+        ctors = [c for c in L.calls_in(f.node) if callee_name(c) == "PDDLFunction" and g.node_containing(c) in seen]
+        if not ctors:
+            rep = False
+        for c in ctors:
+            rv = L.arg_of(c, init, "repeating_variables")
+            if rv is None or not any(any(s_.startswith("arg0:Counter") for s_ in x) for x in p.trace(rv, under=under)):
+                rep = False
+        ob["repeats"] = rep
         out.append(ob)
     return out
 
@@ -92,15 +137,18 @@ def _fluent_obligations(repo: Repo, f: FuncInfo) -> List[Dict[str, bool]]:
 def rule_siblings(repo: Repo) -> RuleResult:
     r = RuleResult("C10.siblings", "the trajectory reader of (= (f a b) v) discharges what its sibling in the problem parser discharges",
                    "the same fluents with the same argument lists (including repeated arguments)")
-    ref = repo.func("ProblemParser.parse_grounded_numeric_fluent")
+    ref = L.fn(repo, "ProblemParser.parse_grounded_numeric_fluent")
     refob = _fluent_obligations(repo, ref)
     r.site(ref.qn)
     if not refob:
         raise AnalysisError("ProblemParser.parse_grounded_numeric_fluent: no return found")
     want = {k for k in ("arity", "types", "repeats") if all(o[k] for o in refob)}
     r.ok({"reference": ref.qn, "discharges": sorted(want)})
-    f = repo.func("TrajectoryParser.parse_grounded_numeric_fluent")
-    for ob in _fluent_obligations(repo, f):
+    f = L.fn(repo, "TrajectoryParser.parse_grounded_numeric_fluent")
+    obs = _fluent_obligations(repo, f)
+    if len(obs) < 2:
+        raise AnalysisError("TrajectoryParser.parse_grounded_numeric_fluent: the cases 'problem given' / 'no problem' were not recognised")
+    for ob in obs:
         r.site(f"{f.qn} [return, objects {'known' if ob['objects_known'] else 'unknown'}]")
         need = set(want)
         if not ob["objects_known"]:
@@ -108,25 +156,36 @@ def rule_siblings(repo: Repo) -> RuleResult:
         missing = sorted(k for k in need if not ob[k])
         if missing:
             r.fail(Finding("C10.siblings", f, f"sibling-obligation:{'/'.join(missing)}:{'objects-known' if ob['objects_known'] else 'objects-unknown'}",
-                           f"the return at line {ob['line']} lacks {missing} that ProblemParser.parse_grounded_numeric_fluent performs "
-                           f"(repeats: (= (dist c0 c0) 1) comes back as (dist c0))"))
+                           f"with the problem objects {'known' if ob['objects_known'] else 'unknown'} the reader lacks {missing} that "
+                           f"ProblemParser.parse_grounded_numeric_fluent performs (repeats: (= (dist c0 c0) 1) comes back as (dist c0))"))
         else:
-            r.ok({"return_line": ob["line"], "discharges": sorted(need)})
+            r.ok({"objects_known": ob["objects_known"], "discharges": sorted(need)})
     # ground atoms: arity + declared parameter order
-    a = repo.func("TrajectoryParser.parse_grounded_predicate")
+    a = L.fn(repo, "TrajectoryParser.parse_grounded_predicate")
     g = C.cfg_of(a.node)
     dom = C.dominators(g)
-    ar = c05._raising_if_nodes(g, c05._is_arity_test)
+    pa = L.prov(repo, a)
+    ar = c05._raising_if_nodes(g, lambda t: c05._is_arity_test(t, pa))
     rets = [n for n in g.nodes() if g.kind[n] == "return"]
     r.site(a.qn)
-    pa = L.prov(repo, a)
-    zips = [c for c in L.calls_in(a.node) if callee_name(c) == "zip" and len(c.args) == 2]
-    zip_ok = any(any(x[0] == "param:grounded_predicate_ast" and x[-1].startswith("slice:1") for x in pa.trace(c.args[0])) and
-                 any(x[:2] == ("param:lifted_predicate", "attr:signature") for x in pa.trace(c.args[1])) for c in zips)
+    # the object mapping handed to the grounded atom pairs declared parameters with the argument tokens position by position
+    ctor = [c for c in L.calls_in(a.node) if callee_name(c) == "GroundedPredicate"]
+    ginit = repo.find_method("GroundedPredicate", "__init__")
+    zip_ok = False
+    for c in ctor:
+        om = L.arg_of(c, ginit, "object_mapping")
+        if om is None:
+            continue
+        ents = L.map_entries(pa.trace(om))
+        keys = {e for k, e in ents if k == "key"}
+        vals = {e for k, e in ents if k == "value"}
+        ksig = bool(keys) and all(e[:2] == ("param:lifted_predicate", "attr:signature") and e[-1].startswith("zip") for e in keys)
+        vtok = bool(vals) and all(e[0] == "param:grounded_predicate_ast" and any(st.startswith("slice:1") for st in e) and e[-1].startswith("zip") for e in vals)
+        zip_ok = zip_ok or (ksig and vtok and {e[-1] for e in keys} != {e[-1] for e in vals})
     if rets and all(dom[n] & set(ar) for n in rets) and zip_ok:
-        r.ok({"atoms": "arity check; mapping = zip(arguments, declared parameters)"})
+        r.ok({"atoms": "arity check; mapping pairs declared parameters with the arguments in order"})
     else:
-        r.fail(Finding("C10.siblings", a, "atom-reader", "the trajectory atom reader lacks the arity check or does not zip arguments with the declared parameters in order"))
+        r.fail(Finding("C10.siblings", a, "atom-reader", "the trajectory atom reader lacks the arity check or does not pair arguments with the declared parameters in order"))
     r.require_sites(3)
     return r
 
@@ -134,50 +193,52 @@ def rule_siblings(repo: Repo) -> RuleResult:
 def rule_thread(repo: Repo) -> RuleResult:
     r = RuleResult("C10.thread", "parse_trajectory: pre-state = initial state or copy of the previous post-state; one component per operator line; missing :state raises",
                    "the parsed observation is a chain with one component per action")
-    f = repo.func("TrajectoryParser.parse_trajectory")
+    f = L.fn(repo, "TrajectoryParser.parse_trajectory")
     p = L.prov(repo, f)
     g = C.cfg_of(f.node)
     adds = [c for c in L.calls_in(f.node) if callee_name(c) == "add_component"]
     if len(adds) != 1:
         raise AnalysisError("parse_trajectory: exactly one add_component call expected")
     a = adds[0]
+    if len(a.args) < 3:
+        raise AnalysisError("parse_trajectory: add_component(previous_state, action, next_state) with positional arguments expected")
     pre, act, post = a.args[0], a.args[1], a.args[2]
+    parsed = lambda x: any(s_.endswith("parse_state") for s_ in x)
+    recv_only = lambda x: x[0] == "self" and all(s_.startswith("call:") for s_ in x[1:])     # the parser object itself
     r.site(L.site(f, a, "pre-state"))
-    tr = {x for x in p.trace(pre) if not (x[0] == "self" and len(x) > 1 and x[1] in ("call:parse_state",))}
+    tr = {x for x in p.trace(pre) if parsed(x) and not recv_only(x)}
     init = [x for x in tr if "call:copy" not in x]
     carried = [x for x in tr if "call:copy" in x]
-    ok_init = bool(init) and all(any(s.endswith("parse_state") for s in x) and "item:0" in x for x in init)
-    ok_car = bool(carried) and all(any(s.endswith("parse_state") for s in x) and x[-1] == "call:copy" for x in carried)
-    post_tr = p.trace(post)
-    # the carried state must be the *post* state of the same iteration
-    carried_is_post = False
-    for n in ast.walk(f.node):
-        if isinstance(n, ast.Assign) and isinstance(n.value, ast.Call) and callee_name(n.value) == "copy" and isinstance(n.value.func, ast.Attribute) \
-                and isinstance(n.value.func.value, ast.Name) and isinstance(post, ast.Name) and n.value.func.value.id == post.id:
-            if any(isinstance(t, ast.Name) and isinstance(pre, ast.Name) and t.id == pre.id for t in n.targets):
-                carried_is_post = True
-    if ok_init and ok_car and carried_is_post:
+    # the first pre-state: parse_state(<first item>[1:]); carried: a copy of the post-state of the previous component
+    ok_init = bool(init) and all(L.has_pos(x, 0) for x in init)
+    ok_car = bool(carried) and all(x[-1] == "call:copy" for x in carried)
+    post_tr = {x for x in p.trace(post) if parsed(x) and not recv_only(x)}
+    carried_is_post = bool(carried) and {x[:-1] for x in carried} <= post_tr
+    other = [x for x in p.trace(pre) if not parsed(x) and x[0].startswith(("param:", "fresh:", "ext:", "const:"))]
+    if ok_init and ok_car and carried_is_post and not other:
         r.ok({"pre_state": "parse_state(first item) | <post-state>.copy()"})
     else:
-        r.fail(Finding("C10.thread", f, "pre-state", f"the pre-state of a component is {sorted(tr)[:3]}", node=a))
+        r.fail(Finding("C10.thread", f, "pre-state", f"the pre-state of a component is {sorted(tr | set(other))[:3]}", node=a))
     r.site(L.site(f, a, "post-state / action"))
-    ok_post = all(any(s.endswith("parse_state") for s in x) and "call:copy" not in x for x in post_tr if x[0].startswith(("self", "param", "fresh", "ext"))) and bool(post_tr)
+    ok_post = bool(post_tr) and all("call:copy" not in x for x in post_tr) and \
+        not [x for x in p.trace(post) if not parsed(x) and x[0].startswith(("param:", "fresh:", "ext:", "const:"))]
     act_tr = p.trace(act)
-    ok_act = any(any(s.endswith("parse_action_call") or s.endswith("parse_joint_action") for s in x) for x in act_tr)
+    ok_act = any(any(s_.endswith("parse_action_call") or s_.endswith("parse_joint_action") for s_ in x) for x in act_tr)
     if ok_post and ok_act:
         r.ok({"post_state": "parse_state(item after the operator line)", "action": "parse_action_call | parse_joint_action"})
     else:
         r.fail(Finding("C10.thread", f, "post-or-action", "post-state / action of a component do not come from the operator line and the following :state item", node=a))
     # indices: operator at index, state at index + 1, step 2
     r.site(f.qn + " [alternation]")
-    loops = [n for n in ast.walk(f.node) if isinstance(n, ast.For) and isinstance(n.iter, ast.Call) and callee_name(n.iter) == "range"]
+    loops = [n for n in ast.walk(f.node) if isinstance(n, ast.For) and isinstance(n.iter, ast.Call) and callee_name(n.iter) == "range"
+             and any(x is a for x in ast.walk(n))]
     ok = False
     if loops:
         rg = loops[0].iter
         ok = len(rg.args) == 3 and isinstance(rg.args[0], ast.Constant) and rg.args[0].value == 1 and isinstance(rg.args[2], ast.Constant) and rg.args[2].value == 2
         idx = loops[0].target.id if isinstance(loops[0].target, ast.Name) else None
-        subs = {ast.unparse(n.slice) for n in ast.walk(loops[0]) if isinstance(n, ast.Subscript) and isinstance(n.value, ast.Name) and
-                any(x == ("self", "call:_read_trajectory_file", "call:parse") or "call:parse" in x for x in p.trace(n.value))}
+        subs = {ast.unparse(n.slice) for n in ast.walk(loops[0]) if isinstance(n, ast.Subscript) and
+                any("call:parse" in x for x in p.trace(n.value))}
         ok = ok and idx is not None and {idx, f"{idx} + 1"} <= subs
     if ok:
         r.ok({"alternation": "operator at i, state at i+1, i = 1, 3, 5, ..."})
@@ -185,19 +246,21 @@ def rule_thread(repo: Repo) -> RuleResult:
         r.fail(Finding("C10.thread", f, "alternation", "operator lines and states are not read alternately from index 1"))
     # missing :state / unknown operator keyword raise
     r.site(f.qn + " [rejections]")
+    tests = {id(n): (k, pos) for n, k, pos in _keyword_tests(repo, f) if k in ("operator:", "operators:", ":state")}
 
     def matcher(e):
-        if isinstance(e, ast.Compare) and len(e.ops) == 1 and isinstance(e.comparators[0], ast.Constant) and L.subscript0_of(e.left) is not None:
-            k = e.comparators[0].value
-            if k in ("operator:", "operators:", ":state"):
-                return k if isinstance(e.ops[0], ast.Eq) else "!" + k
+        if id(e) in tests:
+            k, pos = tests[id(e)]
+            return k if pos else "!" + k
         return None
 
     G = L.Guards(f, matcher)
     an = g.node_containing(a)
     s1 = G.reach({"operator:": False, "operators:": False, ":state": True})
     s2 = G.reach({"operator:": True, "operators:": False, ":state": False})
-    if an not in s1 and an not in s2 and {"operator:", "operators:", ":state"} <= G.atoms_seen:
+    if not {"operator:", "operators:", ":state"} <= G.atoms_seen:
+        r.fail(Finding("C10.thread", f, "rejections", f"the reader does not test the heads 'operator:' / 'operators:' / ':state' (tests seen: {sorted(G.atoms_seen)})"))
+    elif an not in s1 and an not in s2:
         r.ok({"unknown_operator_keyword": "raises", "missing_state": "raises"})
     else:
         r.fail(Finding("C10.thread", f, "rejections", "a component is added although the operator keyword is unknown or the :state item is missing"))
@@ -209,7 +272,7 @@ def rule_thread(repo: Repo) -> RuleResult:
         for x in p.trace(c.args[0]):
             if "attr:objects" in x:
                 srcs.add("problem.objects")
-            if any(s.endswith("deduce_problem_objects") for s in x):
+            if any(s_.endswith("deduce_problem_objects") for s_ in x):
                 srcs.add("deduced from the first state")
     if srcs == {"problem.objects", "deduced from the first state"}:
         r.ok({"objects": sorted(srcs)})
@@ -222,7 +285,7 @@ def rule_thread(repo: Repo) -> RuleResult:
 def rule_call(repo: Repo) -> RuleResult:
     r = RuleResult("C10.call", "action calls keep name and arguments in order; joint actions keep one entry per agent, nop as nop",
                    "the same sequence of action calls")
-    f = repo.func("TrajectoryParser.parse_action_call")
+    f = L.fn(repo, "TrajectoryParser.parse_action_call")
     p = L.prov(repo, f)
     r.site(f.qn)
     ctor = [c for c in L.calls_in(f.node) if callee_name(c) == "ActionCall"]
@@ -236,7 +299,7 @@ def rule_call(repo: Repo) -> RuleResult:
         r.ok({"name": "call[0][0]", "parameters": "call[0][1:]"})
     else:
         r.fail(Finding("C10.call", f, "action-call", "name / parameters of the action call are not the first token / the remaining tokens"))
-    j = repo.func("TrajectoryParser.parse_joint_action")
+    j = L.fn(repo, "TrajectoryParser.parse_joint_action")
     pj = L.prov(repo, j)
     r.site(j.qn)
     loops = [n for n in ast.walk(j.node) if isinstance(n, ast.For)]
